@@ -2,11 +2,22 @@ use crate::utils::pckg;
 use crate::utils::state::{get_handles_sub_state, mutate_map};
 use duckscript::types::command::{Command, CommandInvocationContext, CommandResult};
 use duckscript::types::runtime::StateValue;
-use java_properties::read;
+use encoding_rs::UTF_8;
+use java_properties::{PropertiesError, PropertiesIter};
+use std::collections::HashMap;
 
 #[cfg(test)]
 #[path = "./mod_test.rs"]
 mod mod_test;
+
+/// The input is a text value and not a file, so it is read as UTF-8.
+fn read(text: &[u8]) -> Result<HashMap<String, String>, PropertiesError> {
+    let mut map = HashMap::new();
+    PropertiesIter::new_with_encoding(text, UTF_8).read_into(|key, value| {
+        map.insert(key, value);
+    })?;
+    Ok(map)
+}
 
 #[derive(Clone)]
 pub(crate) struct CommandImpl {
